@@ -98,7 +98,8 @@ theorem has_dup_true_of_close {tol : ℚ} {x : List ℚ} {i j : ℕ} (hij : i < 
 /-- The tail of `set`: what `finish` returns. -/
 theorem finish_ok {tol : ℚ} (h0 : 0 < tol) (h1 : tol ≤ 1) {x y : List ℚ} (hlen : x.length = y.length)
     (h2 : 2 ≤ x.length) {o : Interp} (h : finish tol x y = .ok o) :
-    WF o ∧ o.tol = tol ∧ (o.x.zip o.y).Perm (x.zip y) ∧ (o.x, o.y) = order_points x y ∧ x.Nodup := by
+    WF o ∧ o.tol = tol ∧ (o.x.zip o.y).Perm (x.zip y) ∧ (o.x, o.y) = order_points x y ∧ x.Nodup ∧
+    has_dup tol x = false := by
   unfold finish at h
   by_cases hd : has_dup tol x = true
   · rw [if_pos hd] at h; cases h
@@ -115,7 +116,7 @@ theorem finish_ok {tol : ℚ} (h0 : 0 < tol) (h1 : tol ≤ 1) {x y : List ℚ} (
         rwa [map_fst_zip_eq (by rw [l1, l2]), map_fst_zip_eq hlen] at this
       exact this.nodup_iff.mpr hnd
     refine ⟨⟨by show (order_points x y).1.length = (order_points x y).2.length; rw [l1, l2],
-      by show 2 ≤ (order_points x y).1.length; rw [l1]; exact h2, ?_, rfl⟩, rfl, hp, rfl, hnd⟩
+      by show 2 ≤ (order_points x y).1.length; rw [l1]; exact h2, ?_, rfl⟩, rfl, hp, rfl, hnd, by simpa using hd⟩
     show (order_points x y).1.Pairwise (· < ·)
     have hne : (order_points x y).1.Pairwise (· ≠ ·) := hxs
     exact (hs.and hne).imp (fun h => lt_of_le_of_ne h.1 h.2)
@@ -309,15 +310,20 @@ theorem take_zip (xs ys : List ℚ) :
 /-- What a successful `Interpolation(xs, ys)` is. -/
 theorem set_two_lists_ok {tol : ℚ} (h0 : 0 < tol) (h1 : tol ≤ 1) {xs ys : List ℚ} {o : Interp}
     (h : GenQ.Interpolation.set tol [.list xs, .list ys] = .ok o) :
-    WF o ∧ o.tol = tol ∧ (o.x.zip o.y).Perm (xs.zip ys) ∧ 2 ≤ min xs.length ys.length := by
+    WF o ∧ o.tol = tol ∧ (o.x.zip o.y).Perm (xs.zip ys) ∧ 2 ≤ min xs.length ys.length ∧
+    o.x.Pairwise (fun a b => ¬ |a - b| < tol) := by
   rw [set_two_lists] at h
   by_cases hl : min xs.length ys.length < 2
   · rw [if_pos hl] at h; cases h
   · rw [if_neg hl] at h
-    obtain ⟨w, t, p, _, _⟩ := finish_ok h0 h1 (x := xs.take (min xs.length ys.length))
+    obtain ⟨w, t, p, _, _, hd⟩ := finish_ok h0 h1 (x := xs.take (min xs.length ys.length))
       (y := ys.take (min xs.length ys.length)) (by simp) (by simp; omega) h
+    have hx : o.x.Perm (xs.take (min xs.length ys.length)) := by
+      have := p.map Prod.fst
+      rwa [map_fst_zip_eq w.len, map_fst_zip_eq (by simp)] at this
+    have hpw := (hx.pairwise_iff (fun {a b} hab => by rwa [abs_sub_comm])).mpr ((has_dup_false_iff tol _).mp hd)
     rw [take_zip] at p
-    exact ⟨w, t, p, by omega⟩
+    exact ⟨w, t, p, by omega, hpw⟩
 
 theorem nodes_between {o : Interp} (h : WF o) {i : ℕ} (hi : i < o.x.length) :
     xfirst o ≤ nodes o.x i ∧ nodes o.x i ≤ xlast o := by
